@@ -320,7 +320,18 @@ func (r *Reconciler) Reconcile(ctx context.Context, req reconcile.Request) (reco
 			}
 			// There are no "other" usageResource's referencing the used resource,
 			// so we can remove the in-use label from the used resource
-			if len(usageList.Items) < 2 {
+			//
+			// The Usage being deleted is usually part of the list, but it may
+			// already be gone (its finalizer was removed by an earlier
+			// reconcile and the object has since been collected), so count
+			// the others rather than assuming one entry is ours.
+			others := 0
+			for i := range usageList.Items {
+				if usageList.Items[i].GetUID() != u.GetUID() {
+					others++
+				}
+			}
+			if others == 0 {
 				meta.RemoveLabels(used, inUseLabelKey)
 				if err = r.client.Update(ctx, used); err != nil {
 					log.Debug(errRemoveInUseLabel, "error", err)
